@@ -11,8 +11,11 @@ from .. import core, execgen, execsuite, facts
 SEED = [
     [b"SET", b"ks", b"10"], [b"RPUSH", b"kl", b"a", b"b", b"c"], [b"SADD", b"kt", b"a", b"b"], [b"HSET", b"kh", b"f", b"1"],
     [b"ZADD", b"kz", b"1", b"a", b"2", b"b"], [b"XADD", b"kx", b"1-1", b"f", b"v"], [b"SET", b"ke", b"gone", b"EXAT", b"1"],
+    # keys with a history: a deadline carried over by RENAME, a container that got a deadline, re-armed and persisted
+    [b"SET", b"kr0", b"5", b"EX", b"1000"], [b"RENAME", b"kr0", b"kv"], [b"RPUSH", b"kw", b"a", b"b"], [b"EXPIRE", b"kw", b"1000"],
+    [b"EXPIRE", b"kw", b"2000"], [b"SADD", b"kp", b"a"], [b"EXPIRE", b"kp", b"1000"], [b"PERSIST", b"kp"], [b"RENAME", b"kp", b"kq"],
 ]
-KEYS = [b"ks", b"kl", b"kt", b"kh", b"kz", b"kx", b"ke", b"missing"]
+KEYS = [b"ks", b"kl", b"kt", b"kh", b"kz", b"kx", b"ke", b"missing", b"kv", b"kw", b"kq"]
 ALPHA = [b"", b"0", b"-1", b"1", b"2", b"9223372036854775807", b"-9223372036854775808", b"9223372036854775808", b"abc", b"*", b"[", b"nx", b"xx",
          b"ex", b"px", b"ch", b"incr", b"gt", b"withscores", b"rev", b"limit", b"count", b"~", b"=", b"maxlen", b"minid", b"nomkstream", b"left",
          b"right", b"rank", b"\r\n", b"1.5", b"inf", b"nan", b"-", b"+", b"1-1", b"5-*", b"a", b"f", b"keepttl", b"get", b"lt", b"withvalues",
@@ -61,7 +64,7 @@ def run(R, ctx):
     for i in range(0, len(vecs), per):
         lines.append("R")
         for s in SEED:
-            lines.append(execgen.render(s, [s[1]]))
+            lines.append(execgen.render(s, [s[1]] + ([s[2]] if s[0] == b"RENAME" else [])))
         chunk = vecs[i:i + per]
         for j, v in enumerate(chunk):
             keys = [a for a in v[1:] if a in KEYS]
@@ -70,8 +73,8 @@ def run(R, ctx):
         lines.append(execgen.render([b"GET", b"ks"], [b"ks"]))
         lines.append(execgen.render([b"SET", b"after", b"1"], [b"after"], full=True))
     execsuite.run_exec_suite(R, ctx, name="crash-enumeration", gens=[(1, execgen.string_cmd)], nprog=(0, 0), corpus="exec_c04",
-                             what="bounded-exhaustive vectors: every registered command (from fact F1) x arity 0-2 exhaustively over 9 first arguments "
-                                  "(one key of each type, an expired key, a missing key, the empty key) x a %d-word adversarial alphabet "
+                             what="bounded-exhaustive vectors: every registered command (from fact F1) x arity 0-2 exhaustively over 12 first arguments "
+                                  "(one key of each type, an expired key, a missing key, the empty key, a volatile key that was renamed, a volatile container with a re-armed deadline, a persisted and renamed set) x a %d-word adversarial alphabet "
                                   "(numeric extremes, option words of every family, metacharacters, CR/LF, float specials), arities 3-6 sampled; "
                                   "each program seeds one key of each type, runs 25 vectors and then probes that old and new keys still answer" % len(ALPHA),
                              extra_lines=lines, events=True,
